@@ -39,15 +39,15 @@ Proof. unfold gen_facts. facts_tac. Qed.
 
 Corollary src_facts_never_differ : forall E, nonneg E -> facts_differ_at gen_facts ref_facts E = false.
 Proof.
-  intros E HE. destruct src_facts_tied as (A & B & C & T1 & T2 & T3).
-  destruct ref_facts_agree as (A' & B' & C' & T1' & T2' & T3').
+  intros E HE. destruct src_facts_tied as (A & B & C & T1 & T2 & T4 & T3).
+  destruct ref_facts_agree as (A' & B' & C' & T1' & T2' & T4' & T3').
   specialize (A E HE). specialize (A' E HE).
   destruct A as (a1 & a2 & a3 & a4 & a5 & a6 & a7 & a8 & a9 & a10 & a11 & a12 & a13 & a14 & a15 & a16 & a17).
   destruct A' as (b1 & b2 & b3 & b4 & b5 & b6 & b7 & b8 & b9 & b10 & b11 & b12 & b13 & b14 & b15 & b16 & b17).
   unfold facts_differ_at.
   rewrite a1, a2, a3, a4, a5, a6, a7, a8, a9, a10, a11, a12, a13, a14, a15, a16, a17.
   rewrite b1, b2, b3, b4, b5, b6, b7, b8, b9, b10, b11, b12, b13, b14, b15, b16, b17.
-  rewrite B, B', C, C', T1, T1', T2, T2', T3, T3'. rewrite !Z.eqb_refl. reflexivity.
+  rewrite B, B', C, C', T1, T1', T2, T2', T4, T4', T3, T3'. rewrite !Z.eqb_refl. reflexivity.
 Qed.
 
 (* ---------------------------------------------------------------- wave 3: exception safety / calling context / annealing *)
@@ -80,6 +80,26 @@ Proof.
   intros T n HT Hn. unfold ws_done. cbn [andb]. destruct (1 <? T) eqn:E; [|apply Z.ltb_ge in E; lia].
   apply Z.div_lt_upper_bound; nia.
 Qed.
+
+(* every self-recursive function of the source is one of those whose depth is accounted for (Shapes_Src.rec_allowed) *)
+Lemma pair_eqb_eq : forall a b, pair_eqb a b = true -> a = b.
+Proof.
+  intros [a1 a2] [b1 b2] H. unfold pair_eqb in H. cbn [fst snd] in H. apply andb_true_iff in H. destruct H as (H1 & H2).
+  apply String.eqb_eq in H1. apply String.eqb_eq in H2. subst. reflexivity.
+Qed.
+
+Theorem recursion_allowlisted : forall F, facts_agree F -> forall x, In x (f_recursive F) -> In x rec_allowed.
+Proof.
+  intros F (_ & _ & _ & _ & _ & T4 & _) x Hx. unfold rec_ok in T4. rewrite forallb_forall in T4.
+  specialize (T4 x Hx). apply existsb_exists in T4. destruct T4 as (y & Hy & E). apply pair_eqb_eq in E. subst. exact Hy.
+Qed.
+
+Corollary src_recursion_allowlisted : forall x, In x (f_recursive gen_facts) -> In x rec_allowed.
+Proof. exact (recursion_allowlisted gen_facts src_facts_tied). Qed.
+
+Theorem recursion_new_function_refuted :
+  rec_ok [("neighbors/connected.hpp"%string, "visit_reachable"%string)] = false.
+Proof. vm_compute. reflexivity. Qed.
 
 (* SPE annealing: dividing by the bound of the loop the statement sits in is always a division by >= 1, and the
    learning rate stays in [0, 1] (finite) after any number of iterations *)
@@ -120,7 +140,7 @@ Qed.
 Corollary src_spe_lambda_finite : forall bound other,
   exists l, spe_lambda_src gen_facts bound other = Some l /\ (0 <= l)%Q /\ (l <= 1)%Q.
 Proof.
-  intros bound other. unfold spe_lambda_src. destruct src_facts_tied as (_ & _ & _ & _ & _ & T3). rewrite T3.
+  intros bound other. unfold spe_lambda_src. destruct src_facts_tied as (_ & _ & _ & _ & _ & _ & T3). rewrite T3.
   apply spe_lambda_finite.
 Qed.
 
